@@ -19,7 +19,8 @@ ASSUMPTIONS = [
 COMPONENTS = {"real": ["Exchange", "LimitOrderBook", "Broker", "Rebalancing", "Trade", "contracts"],
               "harness": ["user-defined AbstractContract subclasses", "Fraction ledger", "three-valued need model"], "stub": []}
 PROBE_FLOORS = {"valuation_with_missing_liq_quote": 100, "rebalance_must_fail": 100, "rebalance_either": 10,
-                "failed_rebalance_left_positions_unchanged": 100}
+                "failed_rebalance_left_positions_unchanged": 100, "env_step_failed_atomically": 40,
+                "env_step_with_flat_contract_unquoted": 40}
 
 PROFILE = {
     "oracles": ["c13", "c01"],
@@ -32,15 +33,138 @@ PROFILE = {
 }
 
 
+EPI_PROFILE = {
+    "n_min": 4, "n_max": 10, "c_min": 2, "c_max": 3, "p_bar": 1.0, "extras_max": 3, "extra_kinds": ["nbbo", "custom"],
+    "p_sparse_grid": 0.0, "p_folds": 0.0, "p_markov": 0.0, "p_warmup": 0.0, "delays": [0, 0, 1],
+    "contract_kinds": ["ETF", "spot", "margined", "future"], "p_with_cash": 0.0, "p_rate": 0.2, "spaces": ["box"],
+    "box_bounds": [(-1.0, 1.0)], "latencies": [0, 0, 10 ** 6], "fixed_fees": [0, 0.01],
+}
+NAN = float("nan")
+
+
+def generate_epi(rng, i):
+    """Episode-level clause: quote faults (NaN side, both sides, discontinuation) strike a held / targeted /
+    flat contract at a random timestep of a running environment; later bars may repair it."""
+    from tesim import gen_epi, core
+    env = gen_epi.gen_env(rng, EPI_PROFILE)
+    grid = env["grid"]
+    nc = len(env["contracts"])
+    victim = rng.randrange(nc)
+    k0 = rng.randint(1, len(grid) - 1)
+    kind = rng.choice(["bid", "ask", "both", "disc"])
+    span = rng.randint(1, 3)
+    if kind == "disc":
+        env["events"].append({"t": grid[k0], "type": "disc", "c": victim, "id": 9000})
+    else:
+        for e in env["events"]:
+            if e["type"] == "nbbo" and e["c"] == victim and grid[k0] <= e["t"] < (grid[k0 + span] if k0 + span < len(grid) else "9999"):
+                if kind in ("bid", "both"):
+                    e["bid"] = NAN
+                if kind in ("ask", "both"):
+                    e["ask"] = NAN
+    script = gen_epi.full_episode_script(rng, env)
+    hold = rng.choice(["long", "short", "flat", "random"])
+    for op in script:
+        if op["op"] == "step" and hold != "random":
+            a = gen_epi.gen_action(rng, env)
+            a[victim] = {"long": 0.3, "short": -0.3, "flat": 0.0}[hold]
+            op["action"] = a
+    return {"kind": "epi", "envs": [env], "clock0": "1999-01-01T00:00:00", "script": script, "prng": rng.randrange(2 ** 31),
+            "meta": {"victim": victim, "k0": k0, "fault": kind, "hold": hold}}
+
+
+def execute_epi(scenario):
+    from tesim import epi, epicheck, core
+    sim = epi.run_scenario(scenario)
+    violations, probes, violate, probe = epicheck.mk_violation_sink()
+    h = sim.handles[0]
+    meta = scenario["meta"]
+    sim.fault("quote_fault_" + meta["fault"])
+    trades = 0
+
+    def missing_liq(hold, books):
+        out = []
+        for sym, q in hold.items():
+            if sym == "USD" or q == 0:
+                continue
+            bid, ask = books.get(sym, (NAN, NAN))
+            px = bid if q > 0 else ask
+            if px != px:
+                out.append(sym)
+        return out
+
+    for ep in h.episodes:
+        if ep["failed"]:
+            break
+        for st in ep["steps"]:
+            if st["done_before"]:
+                break
+            k = st["k"]
+            ex = [r for r in sim.sink.records if r["kind"] == "EXEC" and st["seq"] < r["seq"] < st["end_seq"]]
+            noncash = lambda d: {a: b for a, b in (d or {}).items() if a != "USD"}
+            if st.get("exc") is not None:
+                if st["exc"] == "EndOfEpisodeError":
+                    break
+                # a loud failure. If it is the rebalance that failed, it must have been atomic; if the rebalance completed
+                # and the valuation after the step's later events failed, a held position must really lack its quote
+                failed_reb = [r for r in ex if r.get("n_rec_after") == r["n_rec_before"]]
+                if failed_reb or not ex:
+                    bad = [r for r in failed_reb if noncash(r.get("hold_after")) != noncash(r["hold_before"])]
+                    if bad or (not ex and (noncash(st["hold"]) != noncash(st["hold_before"]) or st["n_rec"] != st["n_rec_before"])):
+                        violate("not_atomic", "step {} raised {} ({}) inside its rebalance but positions changed {} -> {}".format(
+                            k, st["exc"], st.get("msg"), noncash(st["hold_before"]), noncash(st["hold"])), op=k, exc=st["exc"])
+                    else:
+                        probe("env_step_failed_atomically")
+                else:
+                    if not missing_liq(st["hold"], st["books"]):
+                        violate("unexpected_exception", "step {} raised {} ({}) after a completed rebalance although every held position has a liquidation quote".format(
+                            k, st["exc"], st.get("msg")), op=k, exc=st["exc"], where="step")
+                    else:
+                        probe("env_valuation_failed_loudly_after_trade")
+                break       # the environment is mid-step after an exception: the episode is abandoned
+            for r in ex:
+                miss = missing_liq(r["hold_before"], r["books"])
+                if miss:
+                    violate("rebalance_silent", "step {} rebalanced although the held {} have no liquidation quote at execution time".format(k, miss), op=k, kind="missing_quote")
+                trades += len(r.get("rebalancing", {}).get("trades", []))
+            if violations:
+                break
+            miss = missing_liq(st["hold"], st["books"])
+            if miss:
+                violate("valuation_silent", "step {} returned (reward {}) although the held {} have no liquidation quote after its events".format(
+                    k, st.get("reward"), miss), op=k, where="reward")
+                break
+            if isinstance(st["nlv"], str):
+                violate("valuation_silent", "valuation raised {} although every held position has a quote".format(st["nlv"]), op=k, where="nlv_spurious")
+                break
+            if any(b[0] != b[0] or b[1] != b[1] for s_, b in st["books"].items() if s_ != "__rate__"):
+                probe("env_step_with_flat_contract_unquoted")
+        if violations:
+            break
+    trace = "epi|{}|{}|k{}|{}".format(meta["fault"], meta["hold"], meta["k0"], "".join(c["kind"][0] for c in scenario["envs"][0]["contracts"]))
+    sim.stats["trades"] = trades
+    return {"violations": violations, "digest": core.digest(sim.log_for_digest()), "probes": probes, "faults": sim.faults,
+            "stats": sim.stats, "trace": trace, "nontrivial": trades >= 1 and len(probes) >= 1}
+
+
 def generate(rng, i):
+    if i % 5 == 4:
+        return generate_epi(rng, i)
     return gen_acct.generate(rng, PROFILE)
 
 
 def execute(scenario):
+    if scenario.get("kind") == "epi":
+        return execute_epi(scenario)
     return acct.execute(scenario, PROP)
 
 
 def describe(scenario):
+    if scenario.get("kind") == "epi":
+        from tesim import gen_epi
+        d = gen_epi.describe(scenario)
+        d["meta"] = scenario.get("meta")
+        return d
     return gen_acct.describe(scenario)
 
 
@@ -48,4 +172,11 @@ def shrink_paths(scenario):
     return [("script",)]
 
 
-from tesim.props.c01 import simplify  # noqa: E402,F401
+from tesim.props.c01 import simplify as _simplify_acct  # noqa: E402
+
+
+def simplify(scenario):
+    if scenario.get("kind") == "epi":
+        return
+    for c in _simplify_acct(scenario):
+        yield c
